@@ -13,7 +13,7 @@ def parseRes : String → Res
 
 def parseKind : String → ObjKind
   | "tcp" | "fifo" => .stream | "regular" => .regular | "adapter" => .adapter | "listener" => .listener
-  | "packet" => .packet | _ => .timer
+  | "packet" | "mpeer" => .packet | _ => .timer
 
 def opOf (toks : List String) : Option Nat := (Driver.attr? toks "op").bind nat?
 
